@@ -75,7 +75,9 @@ Shapes == <<
   \* a function next to other operands of the same query (what is set up for one operand must not reach the others)
   "timestamp_plus", "plus_timestamp", "timestamp_clampps", "timestamp_minus_tsagg", "math_plus", "scalar_plus_vec",
   \* vector <op> scalar with a scalar that differs from step to step
-  "vec_minus_time", "time_minus_vec", "vec_mul_ps", "vec_gtbool_time" >>
+  "vec_minus_time", "time_minus_vec", "vec_mul_ps", "vec_gtbool_time",
+  \* rarely used syntax: unary plus, parentheses around a selector that is a function's argument
+  "timestamp_pos", "timestamp_paren", "timestamp_pos_off", "pos_vec", "pos_agg", "abs_pos", "sum_timestamp_pos" >>
 
 PH(p) == FoldSet(LAMBDA u, acc : acc + (IF p[u] = "-" THEN 0 ELSE IF p[u] = "f" THEN u ELSE 5 * u), 0, 1..Period)
 Hash(x) == (x.n * 7 + (IF x.vp = "pos" THEN 1 ELSE IF x.vp = "mixed" THEN 2 ELSE 3) * 11 + x.lb * 13
@@ -132,6 +134,13 @@ PlanOf(x) ==
     [] sh = "timestamp_minus_tsagg" -> B("-", F1("timestamp", M), F1("timestamp", SumA(M)))
     [] sh = "math_plus"     -> B("+", F1(fn, M), M)
     [] sh = "scalar_plus_vec" -> B("+", F1("scalar", MX), M)
+    [] sh = "timestamp_pos"  -> F1("timestamp", Over(M, LAMBDA c : Pos(c)))
+    [] sh = "timestamp_paren" -> F1("timestamp", Over(M, LAMBDA c : Paren(c)))
+    [] sh = "timestamp_pos_off" -> F1("timestamp", Over(<<SelOff(<<Metric("m")>>, 1)>>, LAMBDA c : Pos(c)))
+    [] sh = "pos_vec"        -> Over(M, LAMBDA c : Pos(c))
+    [] sh = "pos_agg"        -> Over(SumA(M), LAMBDA c : Pos(c))
+    [] sh = "abs_pos"        -> F1("abs", Over(M, LAMBDA c : Pos(c)))
+    [] sh = "sum_timestamp_pos" -> SumA(F1("timestamp", Over(M, LAMBDA c : Pos(c))))
     [] sh = "vec_minus_time" -> B("-", M, TimeF)
     [] sh = "time_minus_vec" -> B("-", TimeF, M)
     [] sh = "vec_mul_ps"     -> B("*", M, PS)
